@@ -33,6 +33,9 @@ type Rule struct {
 	Until    string
 	UntilOcc int
 	Timeout  time.Duration
+	After    time.Duration // extra delay once the condition holds (a delay is always a legal schedule)
+	Late     bool          // hold AFTER the point has been recorded (the goroutine's step is in the trace at its real
+	// place); a serialised section the goroutine is in is left open to the others for the duration of the hold
 	Fired    bool
 	TimedOut bool
 }
@@ -133,8 +136,9 @@ func (c *Controller) Handle(name string, kv ...any) {
 	c.mu.Lock()
 	c.arrivals[name]++
 	occ := c.arrivals[name]
+	var after time.Duration
 	for _, r := range c.Rules {
-		if r.Point != name || r.Fired || (r.Occ != 0 && r.Occ != occ) {
+		if r.Point != name || r.Fired || r.Late || (r.Occ != 0 && r.Occ != occ) {
 			continue
 		}
 		r.Fired = true
@@ -146,8 +150,12 @@ func (c *Controller) Handle(name string, kv ...any) {
 			}
 			c.cond.Wait()
 		}
+		after += r.After
 	}
 	c.mu.Unlock()
+	if after > 0 {
+		time.Sleep(after)
+	}
 	// (b) enter the serialised section before its shared access. Engine.Halt inside ensureInactive is
 	// NOT part of the section (it may block for long, and a completion racing with it is exactly
 	// what must stay observable): the section is suspended at engine.halt.begin and resumed at
@@ -188,6 +196,33 @@ func (c *Controller) Handle(name string, kv ...any) {
 	}
 	if name == "uci.loop.idle" || name == "uci.loop.exit" {
 		c.waitLocked("uci.fwd.start", c.counts["uci.go.activated"], 2*time.Second)
+	}
+	// late holds: the point is recorded; while held, the serialised section (if any) is open to the others
+	for _, r := range c.Rules {
+		if r.Point != name || r.Fired || !r.Late || (r.Occ != 0 && r.Occ != occ) {
+			continue
+		}
+		r.Fired = true
+		held := c.extOwner[g]
+		if held {
+			c.ext.Unlock()
+		}
+		deadline := time.Now().Add(r.Timeout)
+		for c.counts[r.Until] < r.UntilOcc {
+			if time.Now().After(deadline) {
+				r.TimedOut = true
+				break
+			}
+			c.cond.Wait()
+		}
+		c.mu.Unlock()
+		if r.After > 0 {
+			time.Sleep(r.After)
+		}
+		if held {
+			c.ext.Lock()
+		}
+		c.mu.Lock()
 	}
 	inside := c.extOwner[g]
 	owner := closes[name] && inside
